@@ -1,14 +1,1963 @@
-//! C07 — not implemented yet (stub).
-use crate::report::{Cfg, Meta, Report};
+//! C07 — contexts isolate memory and stack; memory is zero-initialised word RAM.
+//!
+//! Generated programs are straight-line scripts of memory gadgets over a small colliding address set,
+//! spread over procedures reached through nestings of exec / call / syscall / dyncall / dynexec (with a
+//! generated kernel), at varied caller stack depths. Every stored element is a unique id. After every
+//! gadget an `emit.<n>` probe lets a recording `Host` (public `Host` trait) capture ctx, fmp and the
+//! stack, and a final probe dumps the memory of every context. The same script is replayed through the
+//! reference model M-ctx (below, written from docs/src/user_docs/assembly/{execution_contexts,
+//! io_operations,code_organization}.md and docs/src/design/stack/io_ops.md) and every probe, the final
+//! stack, the final memory and the time-ordered list of memory accesses are compared. The
+//! memory-chiplet rows of the main trace are checked as a second, model-free history.
+
+use crate::case::{err_kind, AsmOutcome, Case};
+use crate::report::{merge_all, truncate, Cfg, Meta, Report};
+use crate::util::{catch, felts, par_map, rng_for, Rng8, P};
+use processor::{
+    AdviceExtractor, AdviceInjector, ContextId, DefaultHost, ExecutionError, ExecutionOptions, ExecutionTrace, Host,
+    HostResponse, MemAdviceProvider, Process, ProcessState, Program,
+};
+use rand::Rng;
+use serde_json::{json, Value};
+use std::collections::{BTreeMap, BTreeSet, HashMap};
+use vm_core::StarkField;
+use winter_prover::Trace;
 
 pub fn meta() -> Meta {
-    Meta { level: "exploration", rule: "stub".into(), assumptions: vec![] }
+    Meta {
+        level: "exploration",
+        rule: "each evaluation = one memory/locals/stack-visibility operation (mem_load/loadw/store/storew/stream, adv_pipe, loc_load/loadw/store/storew, locaddr, sdepth, caller, call/syscall/dyncall/dynexec/exec return) executed by the real VM inside a generated multi-context program and compared, through a host probe placed right after it, with the reference model M-ctx (ctx, fmp, every visible stack element), plus per program: final stack, final memory of every context, the time-ordered memory access list, and the model-free consistency of the memory-chiplet rows; planned-failure programs (address >= 2^32 incl. second word of stream/pipe, return depth != 16, unknown dyn target, syscall to non-kernel procedure, caller outside syscall) must fail exactly at the planned instruction; distinct = distinct (op kind, same/different/no context of the last writer of that address, address class, call-nesting signature)".into(),
+        assumptions: vec![
+            "probes use the public Host::on_event callback and ProcessState accessors (get_stack_item, get_stack_state, ctx, fmp, get_mem_value)".into(),
+            "procedure MAST roots are taken from procref in the same program (C08 checks them against the MAST model)".into(),
+            "the offset of local 0 from the frame base is calibrated once per run with `locaddr.0` (docs say 2^30 for the first local; see note local0_offset)".into(),
+            "scripts are straight-line (no data-dependent control flow); <= 9 procedures, invocation depth <= 4".into(),
+        ],
+    }
 }
 
-pub fn run(_cfg: &Cfg) -> Report {
-    let mut rep = Report::new();
-    rep.inconclusive("not-implemented");
+// CONSTANTS
+// ================================================================================================
+
+const A30: u64 = 1 << 30;
+const A31: u64 = 1 << 31;
+const A32: u64 = 1 << 32;
+const VALID_ADDRS: [u64; 16] =
+    [0, 1, 2, 3, A30 - 1, A30, A30 + 1, A30 + 2, A30 + 3, A30 + 4, A31, A31 + 1, A31 + 2, A31 + 3, A32 - 2, A32 - 1];
+const INVALID_ADDRS: [u64; 3] = [A32, A32 + 1, P - 1];
+const FINAL_PROBE: u32 = 4_000_000;
+const HASH_PROBE_BASE: u32 = 3_000_000;
+/// placeholder values standing for the elements of a procedure's MAST root in the model
+const PH_BASE: u64 = 1 << 40;
+/// same, for the words produced by `caller` (kept apart so that a deviation can be isolated)
+const CPH_BASE: u64 = PH_BASE + 2048;
+
+fn addr_class(a: u64) -> &'static str {
+    match a {
+        0..=3 => "low",
+        x if x == A30 - 1 => "2^30-1",
+        x if (A30..A30 + 16).contains(&x) => "locals-region",
+        x if (A31..A31 + 16).contains(&x) => "syscall-locals-region",
+        x if x == A32 - 2 => "2^32-2",
+        x if x == A32 - 1 => "2^32-1",
+        x if x == A32 => "invalid:2^32",
+        x if x == A32 + 1 => "invalid:2^32+1",
+        x if x == P - 1 => "invalid:p-1",
+        x if x < A32 => "other-valid",
+        _ => "invalid:other",
+    }
+}
+
+// PROGRAM REPRESENTATION
+// ================================================================================================
+
+#[derive(Clone, Debug, PartialEq, Eq)]
+pub enum Ins {
+    Push(u64),
+    Drop,
+    Dropw,
+    Padw,
+    Swap(u8),
+    MemLoad(Option<u32>),
+    MemLoadw(Option<u32>),
+    MemStore(Option<u32>),
+    MemStorew(Option<u32>),
+    MemStream,
+    AdvPipe,
+    LocLoad(u16),
+    LocLoadw(u16),
+    LocStore(u16),
+    LocStorew(u16),
+    LocAddr(u16),
+    Sdepth,
+    Caller,
+    Procref(usize),
+    Exec(usize),
+    Call(usize),
+    Syscall(usize),
+    Dyncall,
+    Dynexec,
+    /// `emit.<id>`; the tag names the gadget the probe closes (used for signatures and coverage)
+    Probe(u32, &'static str),
+}
+
+#[derive(Clone, Copy, Debug, PartialEq, Eq)]
+pub enum Class {
+    Root,
+    Call,
+    Nested,
+    Sys,
+}
+
+impl Class {
+    fn name(&self) -> &'static str {
+        match self {
+            Class::Root => "root",
+            Class::Call => "call",
+            Class::Nested => "nested-call",
+            Class::Sys => "syscall",
+        }
+    }
+}
+
+#[derive(Clone, Debug)]
+pub struct ProcDef {
+    pub name: String,
+    pub locals: u16,
+    pub kernel: bool,
+    pub class: Class,
+    /// invoked through dyncall/dynexec: the body starts by dropping the hash
+    pub via_dyn: bool,
+    /// (transitively) executes `caller`: may only be reached from a user context
+    pub needs_user_caller: bool,
+    pub body: Vec<Ins>,
+}
+
+#[derive(Clone, Debug, Default)]
+pub struct Prog {
+    pub procs: Vec<ProcDef>,
+    pub main: Vec<Ins>,
+    /// top first
+    pub stack_in: Vec<u64>,
+    /// procedures whose MAST root is needed (targets of dyn*, owners of user contexts)
+    pub hashed: BTreeSet<usize>,
+    pub planned_fail: Option<&'static str>,
+}
+
+fn ins_text(p: &Prog, i: &Ins) -> String {
+    let opt = |n: &str, a: &Option<u32>| match a {
+        Some(a) => format!("{n}.{a}"),
+        None => n.to_string(),
+    };
+    match i {
+        Ins::Push(v) => format!("push.{v}"),
+        Ins::Drop => "drop".into(),
+        Ins::Dropw => "dropw".into(),
+        Ins::Padw => "padw".into(),
+        Ins::Swap(k) => format!("swap.{k}"),
+        Ins::MemLoad(a) => opt("mem_load", a),
+        Ins::MemLoadw(a) => opt("mem_loadw", a),
+        Ins::MemStore(a) => opt("mem_store", a),
+        Ins::MemStorew(a) => opt("mem_storew", a),
+        Ins::MemStream => "mem_stream".into(),
+        Ins::AdvPipe => "adv_pipe".into(),
+        Ins::LocLoad(i) => format!("loc_load.{i}"),
+        Ins::LocLoadw(i) => format!("loc_loadw.{i}"),
+        Ins::LocStore(i) => format!("loc_store.{i}"),
+        Ins::LocStorew(i) => format!("loc_storew.{i}"),
+        Ins::LocAddr(i) => format!("locaddr.{i}"),
+        Ins::Sdepth => "sdepth".into(),
+        Ins::Caller => "caller".into(),
+        Ins::Procref(t) => format!("procref.{}", p.procs[*t].name),
+        Ins::Exec(t) => format!("exec.{}", p.procs[*t].name),
+        Ins::Call(t) => format!("call.{}", p.procs[*t].name),
+        Ins::Syscall(t) => format!("syscall.{}", p.procs[*t].name),
+        Ins::Dyncall => "dyncall".into(),
+        Ins::Dynexec => "dynexec".into(),
+        Ins::Probe(n, _) => format!("emit.{n}"),
+    }
+}
+
+fn body_text(p: &Prog, body: &[Ins], out: &mut String) {
+    let mut line = String::from(" ");
+    for i in body {
+        let t = ins_text(p, i);
+        line.push(' ');
+        line.push_str(&t);
+        if matches!(i, Ins::Probe(..)) || line.len() > 90 {
+            out.push_str(&line);
+            out.push('\n');
+            line = String::from(" ");
+        }
+    }
+    if line.trim().len() > 0 {
+        out.push_str(&line);
+        out.push('\n');
+    }
+}
+
+/// (program source, kernel source)
+pub fn render(p: &Prog) -> (String, Option<String>) {
+    let mut src = String::new();
+    let mut ker = String::new();
+    // callees are created after their callers, so definition order = reverse creation order
+    for pr in p.procs.iter().rev() {
+        let out = if pr.kernel { &mut ker } else { &mut src };
+        out.push_str(&format!("{}.{}.{}\n", if pr.kernel { "export" } else { "proc" }, pr.name, pr.locals));
+        body_text(p, &pr.body, out);
+        out.push_str("end\n");
+    }
+    src.push_str("begin\n");
+    body_text(p, &p.main, &mut src);
+    src.push_str("end\n");
+    (src, if ker.is_empty() { None } else { Some(ker) })
+}
+
+// GENERATOR
+// ================================================================================================
+
+struct Gen<'a> {
+    rng: &'a mut Rng8,
+    prog: Prog,
+    next_id: u64,
+    next_probe: u32,
+    /// gadgets left before the planned failure is injected
+    fail_in: Option<usize>,
+    gadget_budget: usize,
+}
+
+#[derive(Clone, Copy)]
+struct FrameCtx {
+    /// creation index of the procedure being generated (usize::MAX for main)
+    me: usize,
+    class: Class,
+    kernel: bool,
+    locals: u16,
+    /// statically known stack depth (main and called frames); None in exec'd procedures
+    depth: Option<usize>,
+    inv_depth: usize,
+    allow_caller: bool,
+    /// the frame is the top-level body of a call/syscall/dyncall (must return with depth 16)
+    called: bool,
+}
+
+impl<'a> Gen<'a> {
+    fn fresh(&mut self) -> u64 {
+        self.next_id += 1;
+        self.next_id
+    }
+    fn probe(&mut self, tag: &'static str) -> Ins {
+        self.next_probe += 1;
+        Ins::Probe(self.next_probe, tag)
+    }
+    fn slot(&mut self) -> u8 {
+        self.rng.gen_range(1..=15)
+    }
+    fn valid_addr(&mut self) -> u64 {
+        VALID_ADDRS[self.rng.gen_range(0..VALID_ADDRS.len())]
+    }
+
+    /// removes `n` freshly produced result elements from the top: some are kept in a slot of the
+    /// visible 16 (so they are also returned to the caller / the final stack), the rest is dropped
+    fn consume(&mut self, b: &mut Vec<Ins>, n: usize) {
+        for _ in 0..n {
+            if self.rng.gen_range(0..3) == 0 {
+                let k = self.slot();
+                b.push(Ins::Swap(k));
+            }
+            b.push(Ins::Drop);
+        }
+    }
+
+    fn addr_operand(&mut self, b: &mut Vec<Ins>, a: u64) -> Option<u32> {
+        // immediate form only for valid addresses
+        if a < A32 && self.rng.gen_range(0..2) == 0 {
+            Some(a as u32)
+        } else {
+            b.push(Ins::Push(a));
+            None
+        }
+    }
+
+    fn g_mem(&mut self, b: &mut Vec<Ins>, op: usize, a: u64) {
+        match op {
+            0 => {
+                let v = self.fresh();
+                b.push(Ins::Push(v));
+                let o = self.addr_operand(b, a);
+                b.push(Ins::MemStore(o));
+                b.push(self.probe("mem_store"));
+            }
+            1 => {
+                for _ in 0..4 {
+                    let v = self.fresh();
+                    b.push(Ins::Push(v));
+                }
+                let o = self.addr_operand(b, a);
+                b.push(Ins::MemStorew(o));
+                b.push(self.probe("mem_storew"));
+                b.push(Ins::Dropw);
+            }
+            2 => {
+                let o = self.addr_operand(b, a);
+                b.push(Ins::MemLoad(o));
+                b.push(self.probe("mem_load"));
+                self.consume(b, 1);
+            }
+            3 => {
+                b.push(Ins::Padw);
+                let o = self.addr_operand(b, a);
+                b.push(Ins::MemLoadw(o));
+                b.push(self.probe("mem_loadw"));
+                self.consume(b, 4);
+            }
+            4 => {
+                b.push(Ins::Push(a));
+                b.extend([Ins::Padw, Ins::Padw, Ins::Padw, Ins::MemStream]);
+                b.push(self.probe("mem_stream"));
+                self.consume(b, 13);
+            }
+            _ => {
+                b.push(Ins::Push(a));
+                b.extend([Ins::Padw, Ins::Padw, Ins::Padw, Ins::AdvPipe]);
+                b.push(self.probe("adv_pipe"));
+                self.consume(b, 13);
+            }
+        }
+    }
+
+    fn g_loc(&mut self, b: &mut Vec<Ins>, locals: u16) {
+        let i = self.rng.gen_range(0..locals);
+        match self.rng.gen_range(0..5) {
+            0 => {
+                let v = self.fresh();
+                b.push(Ins::Push(v));
+                b.push(Ins::LocStore(i));
+                b.push(self.probe("loc_store"));
+            }
+            1 => {
+                for _ in 0..4 {
+                    let v = self.fresh();
+                    b.push(Ins::Push(v));
+                }
+                b.push(Ins::LocStorew(i));
+                b.push(self.probe("loc_storew"));
+                b.push(Ins::Dropw);
+            }
+            2 => {
+                b.push(Ins::LocLoad(i));
+                b.push(self.probe("loc_load"));
+                self.consume(b, 1);
+            }
+            3 => {
+                b.push(Ins::Padw);
+                b.push(Ins::LocLoadw(i));
+                b.push(self.probe("loc_loadw"));
+                self.consume(b, 4);
+            }
+            _ => {
+                b.push(Ins::LocAddr(i));
+                b.push(self.probe("locaddr"));
+                self.consume(b, 1);
+            }
+        }
+    }
+
+    fn new_proc(&mut self, kernel: bool, class: Class, via_dyn: bool) -> usize {
+        let idx = self.prog.procs.len();
+        let locals = *[0u16, 1, 2, 3, 5].get(self.rng.gen_range(0..5)).unwrap();
+        self.prog.procs.push(ProcDef {
+            name: format!("{}{}", if kernel { "k" } else { "f" }, idx),
+            locals,
+            kernel,
+            class,
+            via_dyn,
+            needs_user_caller: false,
+            body: vec![],
+        });
+        idx
+    }
+
+    /// picks an existing procedure that may be invoked from `f` in the given way, or creates one
+    fn target(&mut self, f: &FrameCtx, kind: &str) -> Option<usize> {
+        let (kernel, class, via_dyn) = match kind {
+            "exec" => (f.kernel, f.class, false),
+            "dynexec" => (false, f.class, true),
+            "call" => (false, child_class(f.class), false),
+            "dyncall" => (false, child_class(f.class), true),
+            _ => (true, Class::Sys, false),
+        };
+        // definition order = reverse creation order: only procedures created after `f.me` are visible
+        // (kernel procedures are visible to every user procedure)
+        let cands: Vec<usize> = (0..self.prog.procs.len())
+            .filter(|&q| {
+                let pr = &self.prog.procs[q];
+                let visible = if kind == "syscall" { true } else { f.me == usize::MAX || q > f.me };
+                // a procedure still under construction (an ancestor) can never be a target
+                visible
+                    && !pr.body.is_empty()
+                    && pr.kernel == kernel
+                    && pr.class == class
+                    && pr.via_dyn == via_dyn
+                    && (if kind == "syscall" { f.class != Class::Root } else { f.allow_caller } || !pr.needs_user_caller)
+            })
+            .collect();
+        if !cands.is_empty() && (self.prog.procs.len() >= 9 || self.rng.gen_range(0..3) == 0) {
+            return Some(cands[self.rng.gen_range(0..cands.len())]);
+        }
+        if self.prog.procs.len() >= 9 || f.inv_depth >= 4 {
+            return None;
+        }
+        let q = self.new_proc(kernel, class, via_dyn);
+        let locals = self.prog.procs[q].locals;
+        let called = kind != "exec" && kind != "dynexec";
+        let cf = FrameCtx {
+            me: q,
+            class,
+            kernel,
+            locals,
+            depth: if called { Some(16) } else { None },
+            inv_depth: f.inv_depth + 1,
+            allow_caller: if kind == "syscall" { f.class != Class::Root } else { f.allow_caller },
+            called,
+        };
+        let n = self.rng.gen_range(2..=6);
+        let mut body = vec![];
+        if via_dyn {
+            body.push(Ins::Dropw);
+        }
+        self.gen_body(&cf, n, &mut body);
+        self.prog.procs[q].body = body;
+        Some(q)
+    }
+
+    fn g_invoke(&mut self, f: &mut FrameCtx, b: &mut Vec<Ins>) -> bool {
+        let kinds: &[&str] = if f.kernel { &["exec"] } else { &["exec", "call", "call", "syscall", "syscall", "dyncall", "dynexec"] };
+        let kind = kinds[self.rng.gen_range(0..kinds.len())];
+        let t = match self.target(f, kind) {
+            Some(t) => t,
+            None => return false,
+        };
+        if self.prog.procs[t].needs_user_caller && f.me != usize::MAX && (kind == "exec" || kind == "dynexec") {
+            self.prog.procs[f.me].needs_user_caller = true;
+        }
+        // vary the caller's depth at the call site
+        let k = *[0usize, 0, 1, 3, 5, 8].get(self.rng.gen_range(0..6)).unwrap();
+        for _ in 0..k {
+            let v = self.fresh();
+            b.push(Ins::Push(v));
+        }
+        let tag: &'static str = match kind {
+            "exec" => {
+                b.push(Ins::Exec(t));
+                "exec-return"
+            }
+            "call" => {
+                b.push(Ins::Call(t));
+                self.prog.hashed.insert(t);
+                "call-return"
+            }
+            "syscall" => {
+                b.push(Ins::Syscall(t));
+                "syscall-return"
+            }
+            "dyncall" => {
+                b.push(Ins::Procref(t));
+                b.push(Ins::Dyncall);
+                self.prog.hashed.insert(t);
+                "dyncall-return"
+            }
+            _ => {
+                b.push(Ins::Procref(t));
+                b.push(Ins::Dynexec);
+                self.prog.hashed.insert(t);
+                "dynexec-return"
+            }
+        };
+        // a real operation after the block so that the probe never sits alone in a span
+        b.push(Ins::Push(0));
+        b.push(Ins::Drop);
+        b.push(self.probe(tag));
+        if kind == "dyncall" {
+            // the hash was dropped inside the callee's context only: depth is still +4 here
+            b.push(Ins::Dropw);
+        }
+        for _ in 0..k {
+            b.push(Ins::Drop);
+        }
+        true
+    }
+
+    fn g_fail(&mut self, f: &FrameCtx, b: &mut Vec<Ins>) {
+        let r = self.rng.gen_range(0..100);
+        let name: &'static str;
+        if r < 40 {
+            let a = INVALID_ADDRS[self.rng.gen_range(0..3)];
+            let op = self.rng.gen_range(0..6);
+            self.g_mem(b, op, a);
+            name = "invalid-address";
+        } else if r < 52 {
+            self.g_mem(b, 4, A32 - 1);
+            name = "stream-second-word";
+        } else if r < 64 {
+            self.g_mem(b, 5, A32 - 1);
+            name = "pipe-second-word";
+        } else if r < 78 && f.called {
+            // handled by the caller of gen_body: extra element at return
+            name = "return-depth";
+        } else if r < 88 && !f.kernel {
+            for _ in 0..4 {
+                let v = self.fresh();
+                b.push(Ins::Push(v));
+            }
+            b.push(if self.rng.gen_range(0..2) == 0 { Ins::Dyncall } else { Ins::Dynexec });
+            b.push(Ins::Push(0));
+            b.push(Ins::Drop);
+            b.push(self.probe("dyn-unknown-target"));
+            name = "dyn-unknown-target";
+        } else if !f.kernel {
+            b.push(Ins::Padw);
+            b.push(Ins::Caller);
+            b.push(self.probe("caller-outside-syscall"));
+            b.push(Ins::Dropw);
+            name = "caller-outside-syscall";
+        } else {
+            let a = INVALID_ADDRS[self.rng.gen_range(0..3)];
+            self.g_mem(b, 2, a);
+            name = "invalid-address";
+        }
+        self.prog.planned_fail = Some(name);
+    }
+
+    fn gen_body(&mut self, f0: &FrameCtx, n: usize, b: &mut Vec<Ins>) {
+        let mut f = *f0;
+        let mut return_depth_fail = false;
+        // a real operation first so that the probe never sits alone in a span
+        b.push(Ins::Push(0));
+        b.push(Ins::Drop);
+        b.push(self.probe("entry"));
+        for _ in 0..n {
+            if self.gadget_budget == 0 {
+                break;
+            }
+            self.gadget_budget -= 1;
+            if let Some(c) = self.fail_in {
+                if c == 0 {
+                    self.fail_in = None;
+                    self.g_fail(&f, b);
+                    if self.prog.planned_fail == Some("return-depth") {
+                        return_depth_fail = true;
+                    }
+                    continue;
+                }
+                self.fail_in = Some(c - 1);
+            }
+            let r = self.rng.gen_range(0..100);
+            if r < 50 {
+                let op = self.rng.gen_range(0..6);
+                let mut a = self.valid_addr();
+                if op >= 4 && a == A32 - 1 {
+                    // the second word would be out of range: that is a planned-failure gadget
+                    a = A32 - 2;
+                }
+                self.g_mem(b, op, a);
+            } else if r < 68 && f.locals > 0 {
+                self.g_loc(b, f.locals);
+            } else if r < 74 {
+                b.push(Ins::Sdepth);
+                b.push(self.probe("sdepth"));
+                self.consume(b, 1);
+            } else if r < 80 && f.kernel && f.allow_caller {
+                b.push(Ins::Padw);
+                b.push(Ins::Caller);
+                b.push(self.probe("caller"));
+                self.consume(b, 4);
+                self.prog.procs[f.me].needs_user_caller = true;
+            } else if r < 84 && f.depth.is_some() {
+                // drop: below depth 16 zeros (never the caller's hidden elements) must appear
+                let k = self.rng.gen_range(1..=3);
+                for _ in 0..k {
+                    b.push(Ins::Drop);
+                    f.depth = f.depth.map(|d| d.saturating_sub(1).max(16));
+                }
+                b.push(self.probe("drop-pull"));
+            } else if !self.g_invoke(&mut f, b) {
+                let a = self.valid_addr();
+                self.g_mem(b, 2, a);
+            }
+        }
+        if f.called {
+            // gadgets are depth-neutral, `drop` never goes below 16: the frame ends at depth 16 when it
+            // started there
+            if return_depth_fail {
+                let k = self.rng.gen_range(1..=2);
+                for _ in 0..k {
+                    let v = self.fresh();
+                    b.push(Ins::Push(v));
+                }
+            }
+        }
+    }
+}
+
+fn child_class(c: Class) -> Class {
+    match c {
+        Class::Root => Class::Call,
+        _ => Class::Nested,
+    }
+}
+
+pub fn gen_prog(rng: &mut Rng8) -> Prog {
+    let d0 = rng.gen_range(16..=40usize);
+    let planned = rng.gen_range(0..100) < 22;
+    let n_main = rng.gen_range(5..=16);
+    let mut g = Gen {
+        rng,
+        prog: Prog::default(),
+        next_id: 1_000_000,
+        next_probe: 0,
+        fail_in: None,
+        gadget_budget: 60,
+    };
+    if planned {
+        g.fail_in = Some(g.rng.gen_range(0..24));
+    }
+    g.prog.stack_in = (0..d0).map(|i| 9_000_000 + i as u64).collect();
+    let f = FrameCtx { me: usize::MAX, class: Class::Root, kernel: false, locals: 0, depth: Some(d0), inv_depth: 0, allow_caller: false, called: false };
+    let mut main = vec![];
+    g.gen_body(&f, n_main, &mut main);
+    main.push(Ins::Push(0));
+    main.push(Ins::Drop);
+    main.push(Ins::Probe(FINAL_PROBE, "final"));
+    // prelude: learn the MAST roots of the procedures the model needs
+    let mut pre = vec![];
+    for &h in &g.prog.hashed {
+        pre.push(Ins::Procref(h));
+        pre.push(Ins::Probe(HASH_PROBE_BASE + h as u32, "hash"));
+        pre.push(Ins::Dropw);
+    }
+    pre.extend(main);
+    g.prog.main = pre;
+    if g.fail_in.is_some() {
+        // the countdown never reached zero: no failure was injected
+        g.prog.planned_fail = None;
+    }
+    g.prog
+}
+
+// M-ctx: THE REFERENCE MODEL
+// ================================================================================================
+
+#[derive(Clone, Debug, PartialEq, Eq)]
+pub struct ProbeExp {
+    pub id: u32,
+    pub tag: String,
+    pub ctx: usize,
+    pub fmp: u64,
+    /// physical stack, top first: visible stack of the current context, then the `hidden` elements of
+    /// the calling contexts
+    pub stack: Vec<u64>,
+    /// invocation path, e.g. "root>call>syscall"
+    pub path: String,
+    pub class: String,
+    /// number of stack elements of the calling contexts that are hidden from this context
+    pub hidden: usize,
+}
+
+#[derive(Clone, Debug, PartialEq, Eq)]
+pub struct Access {
+    pub ctx: usize,
+    pub addr: u64,
+    pub write: bool,
+    pub word: [u64; 4],
+}
+
+#[derive(Clone, Debug, PartialEq, Eq)]
+pub struct Fail {
+    /// base of the violation signature if the real code accepts it
+    pub sig: String,
+    pub why: String,
+}
+
+#[derive(Clone, Debug, Default)]
+pub struct ModelOut {
+    pub probes: Vec<ProbeExp>,
+    pub accesses: Vec<Access>,
+    pub fail: Option<Fail>,
+    pub final_stack: Vec<u64>,
+    pub mem: BTreeMap<(usize, u64), [u64; 4]>,
+    pub advice: Vec<u64>,
+    /// (op kind, writer relation, address class, path) coverage keys, one per memory/visibility op
+    pub ops: Vec<(String, String, String, String)>,
+    pub n_ctx: usize,
+}
+
+struct CtxM {
+    id: usize,
+    /// top LAST
+    stack: Vec<u64>,
+    fmp: u64,
+    owner: Option<usize>,
+    in_syscall: bool,
+    caller_owner: Option<usize>,
+    path: String,
+    class: Class,
+}
+
+struct Model<'a> {
+    p: &'a Prog,
+    loc_off: u64,
+    ctxs: Vec<CtxM>,
+    next_ctx: usize,
+    adv_pos: usize,
+    next_adv: u64,
+    last_writer: HashMap<u64, usize>,
+    out: ModelOut,
+}
+
+type R = Result<(), Fail>;
+
+impl<'a> Model<'a> {
+    fn cur(&mut self) -> &mut CtxM {
+        self.ctxs.last_mut().unwrap()
+    }
+    fn pop(&mut self) -> u64 {
+        let c = self.cur();
+        let v = c.stack.pop().unwrap();
+        if c.stack.len() < 16 {
+            // the stack never gets shallower than 16: a zero enters at the bottom
+            c.stack.insert(0, 0);
+        }
+        v
+    }
+    fn push(&mut self, v: u64) {
+        self.cur().stack.push(v);
+    }
+    /// element at position `i` from the top
+    fn at(&mut self, i: usize) -> &mut u64 {
+        let c = self.cur();
+        let n = c.stack.len();
+        &mut c.stack[n - 1 - i]
+    }
+    fn mem_ctx(&mut self) -> usize {
+        self.cur().id
+    }
+    fn read(&mut self, a: u64, op: &str) -> [u64; 4] {
+        let c = self.mem_ctx();
+        let w = self.out.mem.get(&(c, a)).copied().unwrap_or([0; 4]);
+        self.out.accesses.push(Access { ctx: c, addr: a, write: false, word: w });
+        self.cover(op, a);
+        w
+    }
+    fn write(&mut self, a: u64, w: [u64; 4], op: &str) {
+        let c = self.mem_ctx();
+        self.out.mem.insert((c, a), w);
+        self.out.accesses.push(Access { ctx: c, addr: a, write: true, word: w });
+        self.cover(op, a);
+        self.last_writer.insert(a, c);
+    }
+    fn cover(&mut self, op: &str, a: u64) {
+        let c = self.mem_ctx();
+        let rel = match self.last_writer.get(&a) {
+            None => "no-writer",
+            Some(w) if *w == c => "same-ctx",
+            Some(_) => "other-ctx",
+        };
+        let path = self.cur().path.clone();
+        self.out.ops.push((op.to_string(), rel.to_string(), addr_class(a).to_string(), path));
+    }
+    fn check_addr(&self, a: u64, op: &str) -> R {
+        if a >= A32 {
+            Err(Fail { sig: format!("{op}/invalid-address"), why: format!("{op} at address {a} >= 2^32 ({})", addr_class(a)) })
+        } else {
+            Ok(())
+        }
+    }
+    fn local_addr(&self, base: u64, i: u16) -> u64 {
+        base + self.loc_off + i as u64
+    }
+    fn next_advice(&mut self) -> u64 {
+        if self.adv_pos == self.out.advice.len() {
+            self.next_adv += 1;
+            let v = self.next_adv;
+            self.out.advice.push(v);
+        }
+        let v = self.out.advice[self.adv_pos];
+        self.adv_pos += 1;
+        v
+    }
+
+    fn run_proc(&mut self, t: usize) -> R {
+        let p = self.p;
+        let pr = &p.procs[t];
+        let base = self.cur().fmp;
+        self.cur().fmp = base + pr.locals as u64;
+        self.body(&pr.body, base)?;
+        self.cur().fmp = base;
+        Ok(())
+    }
+
+    fn enter_ctx(&mut self, t: usize, syscall: bool, how: &str) -> R {
+        let p = self.p;
+        if syscall && !p.procs[t].kernel {
+            return Err(Fail { sig: "syscall/non-kernel-target".into(), why: "syscall to a procedure which is not in the kernel".into() });
+        }
+        let (vis, owner, path, class) = {
+            let c = self.cur();
+            let n = c.stack.len();
+            let vis: Vec<u64> = c.stack[n - 16..].to_vec();
+            (vis, c.owner, format!("{}>{how}", c.path), c.class)
+        };
+        let id = if syscall {
+            0
+        } else {
+            self.next_ctx += 1;
+            self.next_ctx
+        };
+        self.out.n_ctx = self.out.n_ctx.max(id + 1);
+        self.ctxs.push(CtxM {
+            id,
+            stack: vis,
+            fmp: if syscall { A31 } else { A30 },
+            owner: if syscall { None } else { Some(t) },
+            in_syscall: syscall,
+            caller_owner: if syscall { owner } else { None },
+            path,
+            class: if syscall { Class::Sys } else { child_class(class) },
+        });
+        self.run_proc(t)?;
+        let done = self.ctxs.pop().unwrap();
+        if done.stack.len() != 16 {
+            return Err(Fail { sig: format!("{how}/return-depth-not-16"), why: format!("callee returned with stack depth {}", done.stack.len()) });
+        }
+        let c = self.cur();
+        let n = c.stack.len();
+        c.stack.truncate(n - 16);
+        c.stack.extend(done.stack);
+        Ok(())
+    }
+
+    fn dyn_target(&mut self, how: &str) -> Result<usize, Fail> {
+        let h: Vec<u64> = (0..4).map(|i| *self.at(i)).collect();
+        let ok = h[0] >= PH_BASE && (h[0] - PH_BASE) % 4 == 0 && (0..4).all(|j| h[j] == h[0] + j as u64);
+        if !ok {
+            return Err(Fail { sig: format!("{how}/unknown-target"), why: "dynamic target hash is not a known code block".into() });
+        }
+        Ok(((h[0] - PH_BASE) / 4) as usize)
+    }
+
+    fn body(&mut self, body: &[Ins], base: u64) -> R {
+        for ins in body {
+            match ins {
+                Ins::Push(v) => self.push(*v),
+                Ins::Drop => {
+                    self.pop();
+                }
+                Ins::Dropw => {
+                    for _ in 0..4 {
+                        self.pop();
+                    }
+                }
+                Ins::Padw => {
+                    for _ in 0..4 {
+                        self.push(0);
+                    }
+                }
+                Ins::Swap(k) => {
+                    let a = *self.at(0);
+                    let b = *self.at(*k as usize);
+                    *self.at(0) = b;
+                    *self.at(*k as usize) = a;
+                }
+                Ins::MemLoad(o) => {
+                    let a = match o {
+                        Some(a) => *a as u64,
+                        None => self.pop(),
+                    };
+                    self.check_addr(a, "mem_load")?;
+                    let w = self.read(a, "mem_load");
+                    self.push(w[0]);
+                }
+                Ins::MemLoadw(o) => {
+                    let a = match o {
+                        Some(a) => *a as u64,
+                        None => self.pop(),
+                    };
+                    self.check_addr(a, "mem_loadw")?;
+                    let w = self.read(a, "mem_loadw");
+                    for i in 0..4 {
+                        *self.at(i) = w[3 - i];
+                    }
+                }
+                Ins::MemStore(o) => {
+                    let a = match o {
+                        Some(a) => *a as u64,
+                        None => self.pop(),
+                    };
+                    self.check_addr(a, "mem_store")?;
+                    let v = self.pop();
+                    let c = self.mem_ctx();
+                    let mut w = self.out.mem.get(&(c, a)).copied().unwrap_or([0; 4]);
+                    w[0] = v;
+                    self.write(a, w, "mem_store");
+                }
+                Ins::MemStorew(o) => {
+                    let a = match o {
+                        Some(a) => *a as u64,
+                        None => self.pop(),
+                    };
+                    self.check_addr(a, "mem_storew")?;
+                    let w = [*self.at(3), *self.at(2), *self.at(1), *self.at(0)];
+                    self.write(a, w, "mem_storew");
+                }
+                Ins::MemStream => {
+                    let a = *self.at(12);
+                    self.check_addr(a, "mem_stream")?;
+                    if a + 1 >= A32 {
+                        return Err(Fail { sig: "mem_stream/addr-wrap".into(), why: format!("mem_stream at {a}: second word address {} >= 2^32", a + 1) });
+                    }
+                    let d = self.read(a, "mem_stream");
+                    let e = self.read(a + 1, "mem_stream");
+                    for i in 0..4 {
+                        *self.at(i) = e[3 - i];
+                        *self.at(4 + i) = d[3 - i];
+                    }
+                    *self.at(12) = a + 2;
+                }
+                Ins::AdvPipe => {
+                    let a = *self.at(12);
+                    self.check_addr(a, "adv_pipe")?;
+                    if a + 1 >= A32 {
+                        return Err(Fail { sig: "adv_pipe/addr-wrap".into(), why: format!("adv_pipe at {a}: second word address {} >= 2^32", a + 1) });
+                    }
+                    let mut d = [0; 4];
+                    let mut e = [0; 4];
+                    for x in d.iter_mut() {
+                        *x = self.next_advice();
+                    }
+                    for x in e.iter_mut() {
+                        *x = self.next_advice();
+                    }
+                    self.write(a, d, "adv_pipe");
+                    self.write(a + 1, e, "adv_pipe");
+                    for i in 0..4 {
+                        *self.at(i) = e[3 - i];
+                        *self.at(4 + i) = d[3 - i];
+                    }
+                    *self.at(12) = a + 2;
+                }
+                Ins::LocLoad(i) => {
+                    let a = self.local_addr(base, *i);
+                    let w = self.read(a, "loc_load");
+                    self.push(w[0]);
+                }
+                Ins::LocLoadw(i) => {
+                    let a = self.local_addr(base, *i);
+                    let w = self.read(a, "loc_loadw");
+                    for j in 0..4 {
+                        *self.at(j) = w[3 - j];
+                    }
+                }
+                Ins::LocStore(i) => {
+                    let a = self.local_addr(base, *i);
+                    let v = self.pop();
+                    let c = self.mem_ctx();
+                    let mut w = self.out.mem.get(&(c, a)).copied().unwrap_or([0; 4]);
+                    w[0] = v;
+                    self.write(a, w, "loc_store");
+                }
+                Ins::LocStorew(i) => {
+                    let a = self.local_addr(base, *i);
+                    let w = [*self.at(3), *self.at(2), *self.at(1), *self.at(0)];
+                    self.write(a, w, "loc_storew");
+                }
+                Ins::LocAddr(i) => {
+                    let a = self.local_addr(base, *i);
+                    self.cover("locaddr", a);
+                    self.push(a);
+                }
+                Ins::Sdepth => {
+                    let d = self.cur().stack.len() as u64;
+                    self.cover("sdepth", 0);
+                    self.push(d);
+                }
+                Ins::Caller => {
+                    if !self.cur().in_syscall {
+                        return Err(Fail { sig: "caller/outside-syscall".into(), why: "caller executed outside of a syscall".into() });
+                    }
+                    self.cover("caller", 0);
+                    match self.cur().caller_owner {
+                        Some(o) => {
+                            for j in 0..4 {
+                                *self.at(j) = CPH_BASE + 4 * o as u64 + j as u64;
+                            }
+                        }
+                        None => {
+                            // syscall made from the root context: the docs do not define the value
+                            return Err(Fail { sig: "model-gap/caller-from-root".into(), why: "generator bug".into() });
+                        }
+                    }
+                }
+                Ins::Procref(t) => {
+                    for j in (0..4).rev() {
+                        self.push(PH_BASE + 4 * *t as u64 + j as u64);
+                    }
+                }
+                Ins::Exec(t) => {
+                    let old = self.cur().path.clone();
+                    self.cur().path = format!("{old}>exec");
+                    self.run_proc(*t)?;
+                    self.cur().path = old;
+                }
+                Ins::Call(t) => self.enter_ctx(*t, false, "call")?,
+                Ins::Syscall(t) => self.enter_ctx(*t, true, "syscall")?,
+                Ins::Dyncall => {
+                    let t = self.dyn_target("dyncall")?;
+                    self.enter_ctx(t, false, "dyncall")?;
+                }
+                Ins::Dynexec => {
+                    let t = self.dyn_target("dynexec")?;
+                    let old = self.cur().path.clone();
+                    self.cur().path = format!("{old}>dynexec");
+                    self.run_proc(t)?;
+                    self.cur().path = old;
+                }
+                Ins::Probe(id, tag) => {
+                    let nctx = self.ctxs.len();
+                    let hidden: usize = self.ctxs[..nctx - 1].iter().map(|c| c.stack.len() - 16).sum();
+                    // physical stack, top first: the visible stack of the current context followed by the
+                    // hidden parts (everything below the top 16) of the calling contexts, nearest first
+                    let mut tail: Vec<u64> = vec![];
+                    for anc in self.ctxs[..nctx - 1].iter().rev() {
+                        let n = anc.stack.len();
+                        tail.extend(anc.stack[..n - 16].iter().rev());
+                    }
+                    let c = self.cur();
+                    let mut st = c.stack.clone();
+                    st.reverse();
+                    st.extend(tail);
+                    let pe = ProbeExp { id: *id, tag: tag.to_string(), ctx: c.id, fmp: c.fmp, stack: st, path: c.path.clone(), class: c.class.name().to_string(), hidden };
+                    self.out.probes.push(pe);
+                }
+            }
+        }
+        Ok(())
+    }
+}
+
+/// Replays the script through M-ctx. `advice` = values to hand out (extended with fresh ids on demand).
+pub fn run_model(p: &Prog, loc_off: u64, advice: Vec<u64>) -> ModelOut {
+    let mut st = p.stack_in.clone();
+    while st.len() < 16 {
+        st.push(0);
+    }
+    st.reverse();
+    let mut m = Model {
+        p,
+        loc_off,
+        ctxs: vec![CtxM { id: 0, stack: st, fmp: A30, owner: None, in_syscall: false, caller_owner: None, path: "root".into(), class: Class::Root }],
+        next_ctx: 0,
+        adv_pos: 0,
+        next_adv: 5_000_000,
+        last_writer: HashMap::new(),
+        out: ModelOut { advice, n_ctx: 1, ..Default::default() },
+    };
+    // exec inside the model changes `path` only for readability of coverage keys
+    let r = m.body(&p.main, A30);
+    if let Err(f) = r {
+        m.out.fail = Some(f);
+    }
+    let mut fs = m.ctxs[0].stack.clone();
+    fs.reverse();
+    m.out.final_stack = fs;
+    m.out
+}
+
+// PROBE HOST
+// ================================================================================================
+
+#[derive(Clone, Debug)]
+pub struct ProbeRec {
+    pub id: u32,
+    pub clk: u32,
+    pub ctx: u32,
+    pub fmp: u64,
+    pub top16: [u64; 16],
+    pub state: Vec<u64>,
+}
+
+pub struct ProbeHost {
+    pub inner: DefaultHost<MemAdviceProvider>,
+    pub probes: Vec<ProbeRec>,
+    /// (ctx, addr) -> word, dumped at the final probe
+    pub final_mem: BTreeMap<(u32, u64), [u64; 4]>,
+    pub final_seen: bool,
+    pub interest: Vec<u64>,
+}
+
+impl Host for ProbeHost {
+    fn get_advice<S: ProcessState>(&mut self, process: &S, extractor: AdviceExtractor) -> Result<HostResponse, ExecutionError> {
+        self.inner.get_advice(process, extractor)
+    }
+    fn set_advice<S: ProcessState>(&mut self, process: &S, injector: AdviceInjector) -> Result<HostResponse, ExecutionError> {
+        self.inner.set_advice(process, injector)
+    }
+    fn on_event<S: ProcessState>(&mut self, process: &S, event_id: u32) -> Result<HostResponse, ExecutionError> {
+        let mut top16 = [0u64; 16];
+        for (i, t) in top16.iter_mut().enumerate() {
+            *t = process.get_stack_item(i).as_int();
+        }
+        let state = process.get_stack_state().iter().map(|f| f.as_int()).collect();
+        self.probes.push(ProbeRec { id: event_id, clk: process.clk(), ctx: process.ctx().into(), fmp: process.fmp(), top16, state });
+        if event_id == FINAL_PROBE {
+            self.final_seen = true;
+            let mut ctxs: BTreeSet<u32> = self.probes.iter().map(|p| p.ctx).collect();
+            ctxs.insert(0);
+            for c in ctxs {
+                let mut addrs: BTreeSet<u64> = self.interest.iter().copied().collect();
+                for (a, _) in process.get_mem_state(ContextId::from(c)) {
+                    addrs.insert(a);
+                }
+                for a in addrs {
+                    if let Some(w) = process.get_mem_value(ContextId::from(c), a as u32) {
+                        self.final_mem.insert((c, a), [w[0].as_int(), w[1].as_int(), w[2].as_int(), w[3].as_int()]);
+                    }
+                }
+            }
+        }
+        Ok(HostResponse::None)
+    }
+    fn on_trace<S: ProcessState>(&mut self, _process: &S, _trace_id: u32) -> Result<HostResponse, ExecutionError> {
+        Ok(HostResponse::None)
+    }
+    fn on_debug<S: ProcessState>(&mut self, _process: &S, _options: &vm_core::DebugOptions) -> Result<HostResponse, ExecutionError> {
+        Ok(HostResponse::None)
+    }
+}
+
+pub enum RealOutcome {
+    Ok(Box<ExecutionTrace>),
+    Err(String, String),
+    Panic(String, String),
+}
+
+impl RealOutcome {
+    fn class(&self) -> String {
+        match self {
+            RealOutcome::Ok(_) => "ok".into(),
+            RealOutcome::Err(k, _) => format!("err:{k}"),
+            RealOutcome::Panic(s, _) => format!("panic:{s}"),
+        }
+    }
+}
+
+pub struct RealRun {
+    pub outcome: RealOutcome,
+    pub probes: Vec<ProbeRec>,
+    pub final_mem: BTreeMap<(u32, u64), [u64; 4]>,
+    pub final_seen: bool,
+}
+
+pub fn run_real(case: &Case, prog: &Program, kernel_override: Option<&Program>) -> RealRun {
+    let mut interest: Vec<u64> = VALID_ADDRS.to_vec();
+    interest.extend((5..12).map(|i| A30 + i));
+    interest.extend((4..10).map(|i| A31 + i));
+    let mut host = ProbeHost { inner: case.default_host(), probes: vec![], final_mem: BTreeMap::new(), final_seen: false, interest };
+    let outcome = if let Some(kp) = kernel_override {
+        // run against the kernel of ANOTHER program (kernel-membership check at run time)
+        let mut process = Process::new(kp.kernel().clone(), case.stack_inputs(), &mut host, ExecutionOptions::default());
+        match catch(|| process.execute(prog)) {
+            Ok(Ok(_)) => RealOutcome::Err("accepted".into(), "execution succeeded".into()),
+            Ok(Err(e)) => RealOutcome::Err(err_kind(&e), format!("{e:?}")),
+            Err(p) => RealOutcome::Panic(p.site(), format!("{} at {}", p.message, p.location)),
+        }
+    } else {
+        match catch(|| processor::execute(prog, case.stack_inputs(), &mut host, ExecutionOptions::default())) {
+            Ok(Ok(t)) => RealOutcome::Ok(Box::new(t)),
+            Ok(Err(e)) => RealOutcome::Err(err_kind(&e), format!("{e:?}")),
+            Err(p) => RealOutcome::Panic(p.site(), format!("{} at {}", p.message, p.location)),
+        }
+    };
+    RealRun { outcome, probes: host.probes, final_mem: host.final_mem, final_seen: host.final_seen }
+}
+
+// SECOND HISTORY: memory chiplet rows of the main trace
+// ================================================================================================
+
+const CHIPLETS: usize = 53;
+const MEM_SEL: usize = CHIPLETS + 3; // two operation selectors
+const MEM_CTX: usize = MEM_SEL + 2;
+const MEM_ADDR: usize = MEM_CTX + 1;
+const MEM_CLK: usize = MEM_ADDR + 1;
+const MEM_V: usize = MEM_CLK + 1;
+
+#[derive(Clone, Debug)]
+pub struct MemRow {
+    pub sel: (u64, u64),
+    pub ctx: u64,
+    pub addr: u64,
+    pub clk: u64,
+    pub v: [u64; 4],
+}
+
+pub fn memory_rows(trace: &ExecutionTrace) -> Vec<MemRow> {
+    let main = trace.main_segment();
+    let n = main.num_rows();
+    let col = |c: usize| main.get_column(c);
+    let (s0, s1, s2) = (col(CHIPLETS), col(CHIPLETS + 1), col(CHIPLETS + 2));
+    let mut rows = vec![];
+    for r in 0..n {
+        if s0[r].as_int() == 1 && s1[r].as_int() == 1 && s2[r].as_int() == 0 {
+            rows.push(MemRow {
+                sel: (col(MEM_SEL)[r].as_int(), col(MEM_SEL + 1)[r].as_int()),
+                ctx: col(MEM_CTX)[r].as_int(),
+                addr: col(MEM_ADDR)[r].as_int(),
+                clk: col(MEM_CLK)[r].as_int(),
+                v: [col(MEM_V)[r].as_int(), col(MEM_V + 1)[r].as_int(), col(MEM_V + 2)[r].as_int(), col(MEM_V + 3)[r].as_int()],
+            });
+        }
+    }
+    rows
+}
+
+/// Model-free check: rows sorted by (ctx, addr, clk); a read returns the previous word or zeros.
+pub fn check_memory_rows(rows: &[MemRow]) -> Option<(String, String)> {
+    let mut prev: Option<&MemRow> = None;
+    for (i, r) in rows.iter().enumerate() {
+        let same_cell = prev.map(|p| p.ctx == r.ctx && p.addr == r.addr).unwrap_or(false);
+        if let Some(p) = prev {
+            let ord = (p.ctx, p.addr, p.clk) <= (r.ctx, r.addr, r.clk);
+            if !ord {
+                return Some(("memory-rows/not-sorted".into(), format!("row {i}: ({},{},{}) after ({},{},{})", r.ctx, r.addr, r.clk, p.ctx, p.addr, p.clk)));
+            }
+        }
+        if r.addr >= A32 {
+            return Some(("memory-rows/address-out-of-range".into(), format!("row {i}: address {}", r.addr)));
+        }
+        match r.sel {
+            (0, 0) => {}
+            (1, 0) => {
+                // init & read: first access of the cell, zeros
+                if same_cell {
+                    return Some(("memory-rows/init-read-on-used-cell".into(), format!("row {i}: ctx {} addr {}", r.ctx, r.addr)));
+                }
+                if r.v != [0; 4] {
+                    return Some(("memory-rows/first-read-not-zero".into(), format!("row {i}: ctx {} addr {} reads {:?}", r.ctx, r.addr, r.v)));
+                }
+            }
+            (1, 1) => {
+                if !same_cell {
+                    return Some(("memory-rows/copy-read-on-fresh-cell".into(), format!("row {i}: ctx {} addr {}", r.ctx, r.addr)));
+                }
+                if r.v != prev.unwrap().v {
+                    return Some((
+                        "memory-rows/read-differs-from-previous".into(),
+                        format!("row {i}: ctx {} addr {} reads {:?}, previous row holds {:?}", r.ctx, r.addr, r.v, prev.unwrap().v),
+                    ));
+                }
+            }
+            s => return Some(("memory-rows/bad-selectors".into(), format!("row {i}: selectors {s:?}"))),
+        }
+        prev = Some(r);
+    }
+    None
+}
+
+// COMPARISON
+// ================================================================================================
+
+fn subst(v: u64, ph: &HashMap<u64, u64>) -> u64 {
+    if (v >= PH_BASE && v < PH_BASE + 4096) || v == A32 {
+        ph.get(&v).copied().unwrap_or(v)
+    } else {
+        v
+    }
+}
+
+fn accepted_sig(f: &Fail) -> String {
+    if f.sig.ends_with("addr-wrap") {
+        f.sig.clone()
+    } else {
+        format!("{}-accepted", f.sig)
+    }
+}
+
+pub struct Checked {
+    pub compared_probes: usize,
+    pub ok: bool,
+}
+
+/// Compares one real run with the model output. Returns the number of probes that matched.
+pub fn compare(case: &Case, m: &ModelOut, real: &RealRun, rep: &mut Report, wit: &dyn Fn() -> Value) -> Checked {
+    let _ = case;
+    // MAST roots learned from the prelude
+    let mut ph: HashMap<u64, u64> = HashMap::new();
+    for r in &real.probes {
+        if r.id >= HASH_PROBE_BASE && r.id < FINAL_PROBE {
+            let pidx = (r.id - HASH_PROBE_BASE) as u64;
+            for j in 0..4 {
+                ph.insert(PH_BASE + 4 * pidx + j, r.top16[j as usize]);
+                ph.insert(CPH_BASE + 4 * pidx + j, r.top16[j as usize]);
+            }
+        }
+    }
+    let mut ctx_map: HashMap<usize, u32> = HashMap::new();
+    let mut ctx_rev: HashMap<u32, usize> = HashMap::new();
+    ctx_map.insert(0, 0);
+    ctx_rev.insert(0, 0);
+    let n = m.probes.len().min(real.probes.len());
+    let mut matched = 0;
+    let mut clean = true;
+    let mut healed = false;
+    for i in 0..n {
+        let (e, r) = (&m.probes[i], &real.probes[i]);
+        if e.id != r.id {
+            rep.violation(
+                "ctx/probe-order-mismatch",
+                format!("probe #{i}: model reached emit.{} ({}), real emit.{}", e.id, e.tag, r.id),
+                wit(),
+            );
+            clean = false;
+            break;
+        }
+        // context identity: injective, root = 0, syscall -> root
+        let bound = *ctx_map.entry(e.ctx).or_insert(r.ctx);
+        let back = *ctx_rev.entry(r.ctx).or_insert(e.ctx);
+        if bound != r.ctx || back != e.ctx {
+            let sig = if e.class == "syscall" { "syscall/not-in-root-context" } else { "ctx/context-identity-mismatch" };
+            rep.violation(
+                sig,
+                format!("probe #{i} emit.{} ({}, path {}): model context #{} is bound to real ctx {}, but real ctx is {}", e.id, e.tag, e.path, e.ctx, bound, r.ctx),
+                wit(),
+            );
+            clean = false;
+            break;
+        }
+        if e.fmp != r.fmp {
+            rep.violation(
+                format!("fmp/mismatch/{}", e.tag),
+                format!("probe #{i} emit.{} ({}, path {}): fmp {} expected {}", e.id, e.tag, e.path, r.fmp, e.fmp),
+                wit(),
+            );
+            clean = false;
+            break;
+        }
+        let exp: Vec<u64> = e.stack.iter().map(|v| subst(*v, &ph)).collect();
+        // get_stack_state lists the visible stack followed by whatever else is in the overflow table
+        let mut mism: Vec<usize> = (0..exp.len()).filter(|&j| r.state.get(j) != Some(&exp[j])).collect();
+        for j in 0..16 {
+            if r.top16[j] != exp[j] && !mism.contains(&j) {
+                mism.push(j);
+            }
+        }
+        if !mism.is_empty() {
+            // two isolated, already understood deviations are reported under their own signature and the
+            // comparison goes on with the real value (so that the rest of the program is still checked)
+            if (e.tag == "mem_stream" || e.tag == "adv_pipe") && mism == [12] && e.stack[12] == A32 && r.top16[12] == 0 {
+                rep.violation(
+                    format!("{}/next-address-wrap", e.tag),
+                    format!("{} at address 2^32-2 leaves a' = 0 on the stack instead of a + 2 = 2^32 (u32 wrap-around)", e.tag),
+                    wit(),
+                );
+                ph.insert(A32, 0);
+            } else if e.tag == "caller" && mism.iter().all(|j| *j < 4) && e.stack[0] >= CPH_BASE {
+                let how = e.path.rsplit('>').find(|s| *s == "call" || *s == "dyncall").unwrap_or("call");
+                rep.violation(
+                    format!("caller/wrong-hash-after-{how}"),
+                    format!(
+                        "caller in a syscall made from a context created by {how} (path {}) returned {:?}, the MAST root of the procedure that owns that context is {:?}",
+                        e.path,
+                        &r.top16[..4],
+                        &exp[..4]
+                    ),
+                    wit(),
+                );
+                for j in 0..4 {
+                    ph.insert(e.stack[j], r.top16[j]);
+                }
+            } else {
+                let pos = mism[0];
+                rep.violation(
+                    format!("{}/result-mismatch", e.tag),
+                    format!(
+                        "probe #{i} emit.{} ({}, path {}, ctx {}): stack position {pos}: real {:?} expected {} (real top16 {:?}; expected {:?})",
+                        e.id,
+                        e.tag,
+                        e.path,
+                        r.ctx,
+                        r.state.get(pos),
+                        exp[pos],
+                        r.top16,
+                        &exp[..exp.len().min(24)]
+                    ),
+                    wit(),
+                );
+                clean = false;
+                break;
+            }
+            healed = true;
+        }
+        if r.state.len() != exp.len() {
+            rep.violation(
+                format!("{}/stack-depth-mismatch", e.tag),
+                format!("probe #{i} emit.{} ({}, path {}): physical stack depth {} expected {} ({} hidden)", e.id, e.tag, e.path, r.state.len(), exp.len(), e.hidden),
+                wit(),
+            );
+            clean = false;
+            break;
+        }
+        rep.count("hidden_elements_checked", &e.hidden.min(30).to_string());
+        matched += 1;
+        rep.count("probe_tags", &format!("{}@{}", e.tag, e.class));
+    }
+    let _ = healed;
+    if !clean {
+        return Checked { compared_probes: matched, ok: false };
+    }
+    let next_tag = m.probes.get(real.probes.len()).map(|p| p.tag.clone()).unwrap_or_else(|| "end".into());
+    match (&m.fail, &real.outcome) {
+        (None, RealOutcome::Ok(trace)) => {
+            if real.probes.len() != m.probes.len() {
+                rep.violation("ctx/probe-count-mismatch", format!("real {} probes, model {}", real.probes.len(), m.probes.len()), wit());
+                return Checked { compared_probes: matched, ok: false };
+            }
+            let fs: Vec<u64> = m.final_stack.iter().map(|v| subst(*v, &ph)).collect();
+            if trace.stack_outputs().stack() != &fs[..] {
+                rep.violation(
+                    "ctx/final-stack-mismatch",
+                    format!("final stack {:?} expected {:?}", trace.stack_outputs().stack(), fs),
+                    wit(),
+                );
+                clean = false;
+            }
+            // final memory of every context
+            if real.final_seen {
+                for ((c, a), w) in &m.mem {
+                    let rc = match ctx_map.get(c) {
+                        Some(rc) => *rc,
+                        None => continue, // context never probed (cannot happen: every frame starts with a probe)
+                    };
+                    let rw = real.final_mem.get(&(rc, *a)).copied().unwrap_or([0; 4]);
+                    if rw != *w {
+                        rep.violation(
+                            "ctx/final-memory-mismatch",
+                            format!("ctx {rc} (model #{c}) address {a} ({}): real {:?} expected {:?}", addr_class(*a), rw, w),
+                            wit(),
+                        );
+                        clean = false;
+                        break;
+                    }
+                }
+                for ((rc, a), w) in &real.final_mem {
+                    let mc = ctx_rev.get(rc).copied();
+                    let known = mc.map(|mc| m.mem.contains_key(&(mc, *a))).unwrap_or(false);
+                    if !known && *w != [0; 4] {
+                        rep.violation(
+                            "ctx/unexpected-memory-content",
+                            format!("ctx {rc} address {a} holds {:?} but the script never wrote it in that context", w),
+                            wit(),
+                        );
+                        clean = false;
+                        break;
+                    }
+                }
+            }
+            // third history: time-ordered access list == memory chiplet rows ordered by clk
+            let rows = memory_rows(trace);
+            if let Some((sig, what)) = check_memory_rows(&rows) {
+                rep.violation(sig, what, wit());
+                clean = false;
+            }
+            rep.count_n("memory_rows_checked", "rows", rows.len() as u64);
+            let mut by_time: Vec<&MemRow> = rows.iter().collect();
+            by_time.sort_by_key(|r| (r.clk, r.addr));
+            if by_time.len() != m.accesses.len() {
+                rep.violation(
+                    "memory-rows/access-count-mismatch",
+                    format!("{} memory rows in the trace, {} accesses in the script", by_time.len(), m.accesses.len()),
+                    wit(),
+                );
+                clean = false;
+            } else {
+                // two accesses of one stream/pipe share the clk and are ordered by address, as in the model
+                for (i, (row, acc)) in by_time.iter().zip(m.accesses.iter()).enumerate() {
+                    let rc = ctx_map.get(&acc.ctx).copied().unwrap_or(u32::MAX) as u64;
+                    let is_write = row.sel == (0, 0);
+                    if row.ctx != rc || row.addr != acc.addr || is_write != acc.write || row.v != acc.word {
+                        rep.violation(
+                            "memory-rows/access-mismatch",
+                            format!("access #{i}: trace row (ctx {}, addr {}, write {}, {:?}) vs script (ctx {rc}, addr {}, write {}, {:?})", row.ctx, row.addr, is_write, row.v, acc.addr, acc.write, acc.word),
+                            wit(),
+                        );
+                        clean = false;
+                        break;
+                    }
+                }
+            }
+        }
+        (None, RealOutcome::Err(k, d)) => {
+            rep.violation(format!("spurious-failure/{next_tag}/{k}"), format!("the script is valid but execution failed before probe '{next_tag}': {d}"), wit());
+            clean = false;
+        }
+        (None, RealOutcome::Panic(site, d))
+            if (next_tag == "mem_stream" || next_tag == "adv_pipe")
+                && m.probes.get(real.probes.len()).map(|p| p.stack.get(12) == Some(&A32)).unwrap_or(false) =>
+        {
+            rep.violation(
+                format!("{next_tag}/next-address-overflow/panic"),
+                format!("{next_tag} at address 2^32-2: computing a' = a + 2 panicked at {site}: {d}"),
+                wit(),
+            );
+            clean = false;
+        }
+        (None, RealOutcome::Panic(site, d)) => {
+            rep.violation(format!("panic/{next_tag}/{site}"), format!("the script is valid but the processor panicked before probe '{next_tag}': {d}"), wit());
+            clean = false;
+        }
+        (Some(f), RealOutcome::Ok(_)) => {
+            rep.violation(accepted_sig(f), format!("{} — execution must fail but succeeded", f.why), wit());
+            clean = false;
+        }
+        (Some(f), RealOutcome::Err(k, d)) => {
+            rep.count("planned_failure_error_kind", &format!("{}:{k}", f.sig));
+            if real.probes.len() > m.probes.len() {
+                rep.violation(accepted_sig(f), format!("{} — execution continued past the instruction (failed later with {d})", f.why), wit());
+                clean = false;
+            } else if real.probes.len() < m.probes.len() {
+                rep.violation(format!("spurious-failure/{next_tag}/{k}"), format!("execution failed before probe '{next_tag}', earlier than the planned failure ({}): {d}", f.why), wit());
+                clean = false;
+            } else {
+                rep.count("rejected", &f.sig);
+            }
+        }
+        (Some(f), RealOutcome::Panic(site, d)) => {
+            let base = if f.sig.ends_with("addr-wrap") { f.sig.replace("addr-wrap", "addr-overflow") } else { f.sig.clone() };
+            rep.violation(format!("{base}/panic"), format!("{} — expected an execution error, the processor panicked at {site}: {d}", f.why), wit());
+            clean = false;
+        }
+    }
+    Checked { compared_probes: matched, ok: clean }
+}
+
+// EXPECTATION <-> JSON (for replay)
+// ================================================================================================
+
+fn model_to_json(m: &ModelOut) -> Value {
+    json!({
+        "probes": m.probes.iter().map(|p| json!([p.id, p.tag, p.ctx, p.fmp, p.stack, p.path, p.class, p.hidden])).collect::<Vec<_>>(),
+        "accesses": m.accesses.iter().map(|a| json!([a.ctx, a.addr, a.write, a.word])).collect::<Vec<_>>(),
+        "fail": m.fail.as_ref().map(|f| json!([f.sig, f.why])),
+        "final_stack": m.final_stack,
+        "mem": m.mem.iter().map(|((c, a), w)| json!([c, a, w])).collect::<Vec<_>>(),
+    })
+}
+
+fn model_from_json(v: &Value) -> Option<ModelOut> {
+    let nums = |x: &Value| -> Vec<u64> { x.as_array().map(|a| a.iter().filter_map(|e| e.as_u64()).collect()).unwrap_or_default() };
+    let word = |x: &Value| -> [u64; 4] {
+        let n = nums(x);
+        [n.first().copied().unwrap_or(0), n.get(1).copied().unwrap_or(0), n.get(2).copied().unwrap_or(0), n.get(3).copied().unwrap_or(0)]
+    };
+    let mut m = ModelOut::default();
+    for p in v.get("probes")?.as_array()? {
+        m.probes.push(ProbeExp {
+            id: p[0].as_u64()? as u32,
+            tag: p[1].as_str()?.to_string(),
+            ctx: p[2].as_u64()? as usize,
+            fmp: p[3].as_u64()?,
+            stack: nums(&p[4]),
+            path: p[5].as_str()?.to_string(),
+            class: p[6].as_str()?.to_string(),
+            hidden: p.get(7).and_then(|x| x.as_u64()).unwrap_or(0) as usize,
+        });
+    }
+    for a in v.get("accesses")?.as_array()? {
+        m.accesses.push(Access { ctx: a[0].as_u64()? as usize, addr: a[1].as_u64()?, write: a[2].as_bool()?, word: word(&a[3]) });
+    }
+    if let Some(f) = v.get("fail") {
+        if !f.is_null() {
+            m.fail = Some(Fail { sig: f[0].as_str()?.to_string(), why: f[1].as_str()?.to_string() });
+        }
+    }
+    m.final_stack = nums(v.get("final_stack")?);
+    for e in v.get("mem")?.as_array()? {
+        m.mem.insert((e[0].as_u64()? as usize, e[1].as_u64()?), word(&e[2]));
+    }
+    Some(m)
+}
+
+// ONE GENERATED CASE
+// ================================================================================================
+
+fn make_case(p: &Prog, advice: &[u64]) -> Case {
+    let (src, ker) = render(p);
+    let mut c = Case::new(src).with_stack(&p.stack_in).with_advice(advice);
+    c.kernel = ker;
+    c
+}
+
+fn assemble(case: &Case, rep: &mut Report, planned: Option<&str>) -> Option<Box<Program>> {
+    match case.assemble() {
+        AsmOutcome::Ok(p) => Some(p),
+        AsmOutcome::Err(e) => {
+            if e.contains("Kernel can not have duplicated procedures") {
+                // two generated kernel procedures happened to have the same MAST root: explicit,
+                // deliberate assembler diagnostic; the program is simply not usable
+                rep.count("outcome", "asm-rejected:duplicate-kernel-procedures");
+                return None;
+            }
+            rep.count("outcome", "asm-err");
+            if planned == Some("caller-outside-syscall") && e.contains("caller") {
+                // `caller` outside a kernel module is rejected at assembly time: documented restriction
+                rep.count("rejected", "caller/outside-syscall(asm)");
+                return None;
+            }
+            rep.violation(
+                "ctx/assembly-rejected",
+                format!("a documented-valid program was rejected by the assembler: {}", truncate(&e, 200)),
+                json!({"kind": "asm", "case": case.to_json()}),
+            );
+            None
+        }
+        AsmOutcome::Panic(pi) => {
+            rep.count("outcome", "asm-panic");
+            rep.violation(
+                format!("ctx/assembly-panic/{}", pi.site()),
+                format!("assembler panicked: {} at {}", pi.message, pi.location),
+                json!({"kind": "asm", "case": case.to_json()}),
+            );
+            None
+        }
+    }
+}
+
+fn run_one(rng: &mut Rng8, rep: &mut Report, loc_off: u64, idx: usize) {
+    let p = gen_prog(rng);
+    let mut m = run_model(&p, loc_off, vec![]);
+    if let Some(f) = &m.fail {
+        if f.sig.starts_with("model-gap") {
+            rep.count("outcome", "generator-gap");
+            return;
+        }
+    }
+    // spare advice so that a run that wrongly continues does not die of advice starvation first
+    let mut advice = m.advice.clone();
+    advice.extend((0..32).map(|i| 6_000_000 + i as u64));
+    m.advice = advice.clone();
+    let case = make_case(&p, &advice);
+    let prog = match assemble(&case, rep, p.planned_fail) {
+        Some(x) => x,
+        None => return,
+    };
+    let real = run_real(&case, &prog, None);
+    rep.count("real_outcome", &real.outcome.class());
+    rep.count("planned", p.planned_fail.unwrap_or("none"));
+    rep.count("model_fail", m.fail.as_ref().map(|f| f.sig.as_str()).unwrap_or("none"));
+    rep.count("initial_depth", &p.stack_in.len().to_string());
+    rep.count("contexts_per_program", &m.n_ctx.min(8).to_string());
+    let wit = || json!({"kind": "ctx", "case": case.to_json(), "expect": model_to_json(&m)});
+    let res = compare(&case, &m, &real, rep, &wit);
+    // coverage: one evaluation per operation whose closing probe was compared
+    let _ = res.compared_probes;
+    if res.ok {
+        for (op, rel, cls, path) in &m.ops {
+            rep.eval(&format!("{op}|{rel}|{cls}|{path}"));
+            rep.count("ops", op);
+            rep.count("op_by_context_class", &format!("{op}@{}", class_of_path(path)));
+            rep.count("writer_relation", &format!("{op}:{rel}"));
+            rep.count("address_class", &format!("{op}:{cls}"));
+        }
+        for pe in &m.probes {
+            rep.count("nesting", &pe.path);
+        }
+    }
+    if idx % 101 == 0 {
+        rep.sample(json!({"src": truncate(&case.src, 700), "kernel": case.kernel.as_ref().map(|k| truncate(k, 300)), "planned_fail": p.planned_fail, "outcome": real.outcome.class(), "probes": real.probes.len()}));
+    }
+    if let RealOutcome::Ok(t) = real.outcome {
+        if rng.gen_range(0..100) == 0 {
+            let mut t = t;
+            rep.count("air_monitored", "trace");
+            crate::props::c03::monitor_trace(&case, &mut t, rng, 1, 0, rep);
+        }
+    }
+}
+
+fn class_of_path(path: &str) -> &'static str {
+    let mut class = Class::Root;
+    let mut stack = vec![];
+    for seg in path.split('>').skip(1) {
+        match seg {
+            "call" | "dyncall" => {
+                stack.push(class);
+                class = child_class(class);
+            }
+            "syscall" => {
+                stack.push(class);
+                class = Class::Sys;
+            }
+            _ => {}
+        }
+    }
+    class.name()
+}
+
+// FIXED CASES
+// ================================================================================================
+
+/// Measures where local 0 of the first frame lives relative to 2^30 (docs: at 2^30).
+fn calibrate_local_offset() -> Option<u64> {
+    let case = Case::new("proc.f.1 locaddr.0 end begin exec.f end");
+    let prog = match case.assemble() {
+        AsmOutcome::Ok(p) => p,
+        _ => return None,
+    };
+    match case.execute(&prog) {
+        crate::case::ExecOutcome::Ok(t) => t.stack_outputs().stack().first().map(|v| v.wrapping_sub(A30)),
+        _ => None,
+    }
+}
+
+fn expect_fail(rep: &mut Report, name: &str, sig: &str, case: Case, asm_may_reject: bool) {
+    rep.eval(&format!("fixed|{name}"));
+    rep.count("fixed", name);
+    let wit = json!({"kind": "must-fail", "name": name, "sig": sig, "asm_may_reject": asm_may_reject, "case": case.to_json()});
+    let prog = match case.assemble() {
+        AsmOutcome::Ok(p) => p,
+        AsmOutcome::Err(_) if asm_may_reject => {
+            rep.count("rejected", &format!("{sig}(asm)"));
+            return;
+        }
+        AsmOutcome::Err(e) => {
+            rep.violation("ctx/assembly-rejected", format!("fixed case {name}: {e}"), wit);
+            return;
+        }
+        AsmOutcome::Panic(p) => {
+            rep.violation(format!("ctx/assembly-panic/{}", p.site()), format!("fixed case {name}: {}", p.message), wit);
+            return;
+        }
+    };
+    let real = run_real(&case, &prog, None);
+    match real.outcome {
+        RealOutcome::Ok(t) => rep.violation(
+            if sig.ends_with("addr-wrap") { sig.to_string() } else { format!("{sig}-accepted") },
+            format!("fixed case {name}: execution must fail but succeeded; final stack {:?}", t.stack_outputs().stack()),
+            wit,
+        ),
+        RealOutcome::Err(k, _) => {
+            rep.count("rejected", sig);
+            rep.count("planned_failure_error_kind", &format!("{sig}:{k}"));
+        }
+        RealOutcome::Panic(site, d) => {
+            let base = if sig.ends_with("addr-wrap") { sig.replace("addr-wrap", "addr-overflow") } else { sig.to_string() };
+            rep.violation(format!("{base}/panic"), format!("fixed case {name}: processor panicked at {site}: {d}"), wit)
+        }
+    }
+}
+
+fn fixed_cases(rep: &mut Report) {
+    let top = A32 - 1;
+    // minimal witnesses of the second-word rule and of each invalid-address class per op
+    expect_fail(rep, "mem_stream@2^32-1", "mem_stream/addr-wrap", Case::new(format!("begin push.11.12.13.14 mem_storew.0 dropw push.{top} padw padw padw mem_stream end")), false);
+    expect_fail(
+        rep,
+        "adv_pipe@2^32-1",
+        "adv_pipe/addr-wrap",
+        Case::new(format!("begin push.{top} padw padw padw adv_pipe end")).with_advice(&[1, 2, 3, 4, 5, 6, 7, 8]),
+        false,
+    );
+    for a in INVALID_ADDRS {
+        for (op, sig, code) in [
+            ("mem_load", "mem_load/invalid-address", format!("begin push.{a} mem_load end")),
+            ("mem_loadw", "mem_loadw/invalid-address", format!("begin padw push.{a} mem_loadw end")),
+            ("mem_store", "mem_store/invalid-address", format!("begin push.7 push.{a} mem_store end")),
+            ("mem_storew", "mem_storew/invalid-address", format!("begin push.1.2.3.4 push.{a} mem_storew end")),
+            ("mem_stream", "mem_stream/invalid-address", format!("begin push.{a} padw padw padw mem_stream end")),
+            ("adv_pipe", "adv_pipe/invalid-address", format!("begin push.{a} padw padw padw adv_pipe end")),
+        ] {
+            let c = Case::new(code).with_advice(&[1, 2, 3, 4, 5, 6, 7, 8]);
+            expect_fail(rep, &format!("{op}@{}", addr_class(a)), sig, c, false);
+        }
+    }
+    // immediate form with an address >= 2^32: must be rejected (at assembly or at run time)
+    expect_fail(rep, "mem_load.imm@2^32", "mem_load/invalid-address", Case::new(format!("begin mem_load.{A32} end")), true);
+    expect_fail(rep, "mem_store.imm@2^32", "mem_store/invalid-address", Case::new(format!("begin push.1 mem_store.{A32} end")), true);
+    // return depth
+    expect_fail(rep, "call-return-17", "call/return-depth-not-16", Case::new("proc.f push.1 end begin call.f end"), false);
+    {
+        let mut c = Case::new("begin syscall.k end");
+        c.kernel = Some("export.k push.1 end".into());
+        expect_fail(rep, "syscall-return-17", "syscall/return-depth-not-16", c, false);
+    }
+    expect_fail(rep, "dyncall-return-17", "dyncall/return-depth-not-16", Case::new("proc.f dropw push.1 end begin procref.f dyncall end"), false);
+    // syscall to a procedure that is not in the kernel
+    expect_fail(rep, "syscall-to-user-proc", "syscall/non-kernel-target", Case::new("proc.f push.1 drop end begin syscall.f end"), true);
+    {
+        let mut c = Case::new("proc.f push.1 drop end begin syscall.f end");
+        c.kernel = Some("export.k push.1 drop end".into());
+        expect_fail(rep, "syscall-to-user-proc-with-kernel", "syscall/non-kernel-target", c, true);
+    }
+    // caller outside a syscall
+    expect_fail(rep, "caller-in-main", "caller/outside-syscall", Case::new("begin padw caller end"), true);
+    expect_fail(rep, "caller-in-call", "caller/outside-syscall", Case::new("proc.f padw caller dropw end begin call.f end"), true);
+    // unknown dynamic targets
+    expect_fail(rep, "dyncall-unknown", "dyncall/unknown-target", Case::new("begin push.1.2.3.4 dyncall end"), false);
+    expect_fail(rep, "dynexec-unknown", "dynexec/unknown-target", Case::new("begin push.1.2.3.4 dynexec end"), false);
+
+    // kernel membership at run time: program compiled against kernel {k0,k1}, run against kernel {k0}
+    {
+        rep.eval("fixed|kernel-mismatch");
+        rep.count("fixed", "kernel-mismatch");
+        let mut c = Case::new("proc.u syscall.k1 end begin call.u end");
+        c.kernel = Some("export.k0 push.1 drop end export.k1 push.2 drop end".into());
+        let mut c2 = Case::new("begin syscall.k0 end");
+        c2.kernel = Some("export.k0 push.1 drop end".into());
+        if let (AsmOutcome::Ok(p1), AsmOutcome::Ok(p2)) = (c.assemble(), c2.assemble()) {
+            let r = run_real(&c, &p1, Some(&p2));
+            match r.outcome {
+                RealOutcome::Err(k, _) if k == "accepted" => rep.violation(
+                    "syscall/non-kernel-target-accepted",
+                    "a syscall to a procedure missing from the process kernel was executed",
+                    json!({"kind": "kernel-mismatch", "case": c.to_json(), "case_b": c2.to_json()}),
+                ),
+                RealOutcome::Err(k, _) => {
+                    rep.count("rejected", "syscall/non-kernel-target(runtime)");
+                    rep.count("planned_failure_error_kind", &format!("syscall/non-kernel-target:{k}"));
+                }
+                RealOutcome::Panic(site, d) => rep.violation(
+                    "syscall/non-kernel-target/panic",
+                    format!("panicked at {site}: {d}"),
+                    json!({"kind": "kernel-mismatch", "case": c.to_json(), "case_b": c2.to_json()}),
+                ),
+                RealOutcome::Ok(_) => {}
+            }
+        } else {
+            rep.inconclusive("kernel-mismatch-case-did-not-assemble");
+        }
+    }
+
+    // deep caller stack invisible to the callee and intact afterwards; locals of live frames distinct;
+    // documented example of execution_contexts.md (addresses of first locals)
+    {
+        rep.eval("fixed|docs-example");
+        rep.count("fixed", "docs-example");
+        let mut c = Case::new(
+            "proc.bar.1 locaddr.0 swap.2 drop syscall.baz end
+             proc.foo.3 locaddr.0 swap.3 drop call.bar exec.bar end
+             begin call.foo end",
+        );
+        c.kernel = Some("export.baz.2 locaddr.0 swap.4 drop end".into());
+        if let AsmOutcome::Ok(p) = c.assemble() {
+            if let crate::case::ExecOutcome::Ok(t) = c.execute(&p) {
+                rep.note("docs_example_final_stack", json!(t.stack_outputs().stack()[..8].to_vec()));
+            }
+        }
+    }
+}
+
+pub fn run(cfg: &Cfg) -> Report {
+    let loc_off = match calibrate_local_offset() {
+        Some(o) if o < 4 => o,
+        _ => {
+            let mut r = Report::new();
+            r.inconclusive("local-offset-calibration-failed");
+            return r;
+        }
+    };
+    let shards = 64;
+    let per = cfg.n(3000, 30000);
+    let mut reports = par_map(shards, |sh| {
+        let mut rng = rng_for(cfg.seed, "C07", sh as u64);
+        let mut rep = Report::new();
+        for i in 0..per {
+            run_one(&mut rng, &mut rep, loc_off, i);
+        }
+        rep
+    });
+    let mut fx = Report::new();
+    fixed_cases(&mut fx);
+    reports.push(fx);
+    let mut rep = merge_all(reports);
+    rep.note(
+        "local0_offset",
+        json!({"observed_address_of_first_local_minus_2^30": loc_off, "docs": "execution_contexts.md: 'The address of the first procedure local in foo (e.g., accessed via loc_load.0) is 2^30'", "handling": "calibrated constant of the model, not a violation of the property statement"}),
+    );
+    for op in ["mem_load", "mem_loadw", "mem_store", "mem_storew", "mem_stream", "adv_pipe", "loc_load", "loc_loadw", "loc_store", "loc_storew", "locaddr"] {
+        for class in ["root", "call", "nested-call", "syscall"] {
+            rep.floor(rep.get_count("op_by_context_class", &format!("{op}@{class}")) >= 3, &format!("{op}-in-{class}"));
+        }
+    }
+    for sig in [
+        "mem_load/invalid-address",
+        "mem_loadw/invalid-address",
+        "mem_store/invalid-address",
+        "mem_storew/invalid-address",
+        "mem_stream/invalid-address",
+        "adv_pipe/invalid-address",
+        "call/return-depth-not-16",
+        "syscall/return-depth-not-16",
+        "dyncall/return-depth-not-16",
+    ] {
+        rep.floor(rep.get_count("rejected", sig) >= 3, &format!("rejected-{sig}"));
+    }
+    rep.floor(rep.get_count("real_outcome", "ok") >= 100, "at-least-100-successful-executions");
+    rep.floor(rep.get_count("air_monitored", "trace") >= 1, "air-monitor-sampled");
+    for n in ["root>call", "root>call>call", "root>call>syscall", "root>syscall", "root>dyncall", "root>dynexec"] {
+        rep.floor(rep.get_count("nesting", n) >= 3, &format!("nesting-{n}"));
+    }
     rep
 }
 
-pub fn replay(_v: &serde_json::Value, _rep: &mut Report) {}
+pub fn replay(v: &Value, rep: &mut Report) {
+    let case = match v.get("case").and_then(Case::from_json) {
+        Some(c) => c,
+        None => return,
+    };
+    match v.get("kind").and_then(|k| k.as_str()).unwrap_or("") {
+        "ctx" => {
+            let m = match v.get("expect").and_then(model_from_json) {
+                Some(m) => m,
+                None => return,
+            };
+            if let Some(prog) = assemble(&case, rep, None) {
+                rep.eval("replay-ctx");
+                let real = run_real(&case, &prog, None);
+                let wit = || json!({"kind": "ctx", "case": case.to_json()});
+                compare(&case, &m, &real, rep, &wit);
+            }
+        }
+        "must-fail" => {
+            let name = v.get("name").and_then(|s| s.as_str()).unwrap_or("replay").to_string();
+            let sig = v.get("sig").and_then(|s| s.as_str()).unwrap_or("must-fail").to_string();
+            let may = v.get("asm_may_reject").and_then(|b| b.as_bool()).unwrap_or(false);
+            expect_fail(rep, &name, &sig, case, may);
+        }
+        "kernel-mismatch" => {
+            if let Some(c2) = v.get("case_b").and_then(Case::from_json) {
+                if let (AsmOutcome::Ok(p1), AsmOutcome::Ok(p2)) = (case.assemble(), c2.assemble()) {
+                    rep.eval("replay-kernel-mismatch");
+                    if let RealOutcome::Err(k, _) = run_real(&case, &p1, Some(&p2)).outcome {
+                        if k == "accepted" {
+                            rep.violation("syscall/non-kernel-target-accepted", "accepted", json!({}));
+                        }
+                    }
+                }
+            }
+        }
+        "asm" => {
+            rep.eval("replay-asm");
+            let _ = assemble(&case, rep, None);
+        }
+        "case" => {
+            let mut rng = rng_for(0, "C07-replay", 0);
+            if let AsmOutcome::Ok(prog) = case.assemble() {
+                if let crate::case::ExecOutcome::Ok(mut t) = case.execute(&prog) {
+                    rep.eval("replay-air");
+                    crate::props::c03::monitor_trace(&case, &mut t, &mut rng, 1, 0, rep);
+                }
+            }
+        }
+        _ => {}
+    }
+    let _ = felts(&[]);
+}
